@@ -56,6 +56,9 @@ class Ctx:
         if isinstance(where, Site):
             where = where.span
         o = Obligation(rule, f'{self.prop}:{rule}:{key}', bool(ok), desc, where, found, expected)
+        for prev in self.obs:
+            if prev.key == o.key and prev.ok == o.ok:
+                return bool(ok)      # the same obligation reached through another site
         self.obs.append(o)
         return bool(ok)
 
@@ -161,9 +164,11 @@ class Ctx:
         return simplify(rec(d, depth))
 
     def pushes(self, body, d):
-        """for a collection value d built in loops: (initial alternatives, [pushed element DAGs with callee])"""
-        u = self.unroll(body, d, 2)
+        """for a collection value d built in loops: (initial alternatives, [(callee, path, args)] of the in-place writes).
+        Only the spine of the collection is unrolled (loop markers of the collection itself), never the element values."""
+        dag = body.dag()
         inits, elems = [], []
+        seen = set()
 
         def rec(x):
             if not isinstance(x, tuple) or not x:
@@ -177,12 +182,53 @@ class Ctx:
                 if e not in elems:
                     elems.append(e)
             elif x[0] == 'loop':
-                pass
+                if (x[1], x[2]) in seen or x[2] < 0:
+                    return
+                seen.add((x[1], x[2]))
+                rec(simplify(dag.carried(x[1], x[2])))
             else:
                 if x not in inits:
                     inits.append(x)
-        rec(u)
+        rec(simplify(d))
         return inits, elems
+
+    def alts(self, b, op, bb, pos, proj=()):
+        """gated alternatives of an operand: [(def block, DAG of that alternative, must-literals at the def block)].
+        Follows plain copies and field projections back to the local that has several reaching definitions."""
+        from .core import mk_field, const_of
+        if op['k'] == 'const':
+            return [(bb, const_of(op), self.guards(b, bb))]
+        if op['k'] not in ('copy', 'move'):
+            return [(bb, ('other',), self.guards(b, bb))]
+        pl = op['pl']
+        fields = [e['n'] or str(e['f']) for e in pl['p'] if isinstance(e, dict) and 'f' in e]
+        if any(isinstance(e, dict) and ('idx' in e or 'cidx' in e or 'dc' in e) for e in pl['p']):
+            d = simplify(b.dag().place(pl, bb, pos))
+            for f in proj:
+                d = mk_field(f, d)
+            return [(bb, simplify(d), self.guards(b, bb))]
+        proj = tuple(fields) + tuple(proj)
+        ds = b.reaching(pl['l'], bb, pos)
+        out = []
+        for d in ds:
+            if d[0] in ('param', 'undef', 'carried'):
+                v = simplify(b.dag().local(pl['l'], bb, pos))
+                for f in proj:
+                    v = mk_field(f, v)
+                out.append((bb, simplify(v), self.guards(b, bb)))
+                continue
+            dbb, dpos, kind, payload = d
+            if kind == 'assign' and payload['rv']['k'] == 'use' and payload['rv']['a']['k'] in ('copy', 'move', 'const'):
+                out.extend(self.alts(b, payload['rv']['a'], dbb, dpos, proj))
+                continue
+            v = b.dag().defdag(pl['l'], d)
+            for f in proj:
+                v = mk_field(f, v)
+            out.append((dbb, simplify(v), self.guards(b, dbb)))
+        return out
+
+    def arg_alts(self, site, k):
+        return self.alts(site.body, site.data['args'][k], site.bb, site.idx)
 
     # ---------------------------------------------------------------- closures
     def closure_body(self, defpath):
